@@ -220,6 +220,15 @@ Lemma task_mode_open_legacy_refuted :
   /\ task_line 1024 killed = (8000, 4) /\ task_line 1024 noexit = (4000, 2).
 Proof. vm_compute. repeat split; reflexivity. Qed.
 
+(* ... and skipped the frames a forked child inherits and never returns from (4ec4e50): child data
+   [EXIT fork; leaf 100 ns; leaf 50 ns], main still open: 150 ns instead of the 340 ns the child ran *)
+Lemma task_mode_inherited_legacy_refuted :
+  let child := [mkrec EXIT 1 30 1310; mkrec ENTRY 1 20 1400; mkrec EXIT 1 20 1500; mkrec ENTRY 1 20 1600;
+                mkrec EXIT 1 20 1650] in
+  task_line_legacy 1024 child = (150, 3) /\ task_line 1024 child = (340, 4)
+  /\ sumN (map w_self (task_rows 1024 child)) = 340.
+Proof. vm_compute. repeat split; reflexivity. Qed.
+
 (* report --diff without colours before the fix: an increase from 100 ns to 300 ns was printed with "-" *)
 Lemma diff_sign_legacy_refuted :
   show_dtime_legacy 100 300 = Some (true, 0, 200, 0) /\ show_dtime_legacy 300 100 = Some (false, 0, 200, 0)
